@@ -136,3 +136,46 @@ func Harness_C20_FeeFloor() {
 		verifAssert("a transaction whose fee covers the floor in some denom is admitted", !covered)
 	}
 }
+
+// C20 rounding: with the floor price taken from a finite grid (so that price x gas is linear in the symbolic gas)
+// the solver decides the exact rounding: admitted iff fee >= ceil(price x gas), for every 64-bit gas — including
+// products whose fractional part is below one half, exactly one half, above one half, and integral products.
+func Harness_C20_FeeRounding() {
+	// price = num / 10^prec
+	grid := []struct{ num, prec, pow int64 }{
+		{5, 4, 10000},         // 0.0005
+		{25, 5, 100000},       // 0.00025
+		{15, 1, 10},           // 1.5
+		{333333, 6, 1000000},  // 0.333333
+		{3, 0, 1},             // integral
+		{1, 9, 1000000000},    // 10^-9
+	}
+	g := grid[verifChoice("price", len(grid))]
+	price := math.LegacyNewDecWithPrec(g.num, g.prec)
+	d := verifSymStr("denom")
+	verifAssume(sdk.ValidateDenom(d) == nil)
+	fromNode := verifSymBool("priceFromNodeConfig")
+	var node, chain sdk.DecCoins
+	if fromNode {
+		node = sdk.DecCoins{{Denom: d, Amount: price}}
+	} else {
+		chain = sdk.DecCoins{{Denom: d, Amount: price}}
+	}
+	gas := verifSymQtyU64("gas") // every 64-bit gas, as an integer quantity: keeps price x gas in linear integer arithmetic
+	amt := verifSymInt("fee.amount")
+	verifAssume(amt.IsPositive())
+	fee := sdk.Coins{{Denom: d, Amount: amt}}
+	ctx := verifSym[sdk.Context]("ctx").WithIsCheckTx(true).WithMinGasPrices(node)
+	_, _, err := NewMempoolFeeChecker(symAnteKeeper{chain}).CheckTxFeeWithMinGasPrices(ctx, symTx{fee: fee, gas: gas})
+	// reference in integers: need = ceil(num x gas / 10^prec)
+	need := math.NewInt(g.num).Mul(math.NewIntFromUint64(gas)).AddRaw(g.pow - 1).QuoRaw(g.pow)
+	if err == nil {
+		verifReach("admitted")
+		verifAssert("admitted only if the fee covers gas x price rounded up", need.IsZero() || amt.GTE(need))
+	} else {
+		verifReach("rejected")
+		// (a zero requirement — gas 0 — is never "met": such a transaction is refused whatever its fee; stricter than
+		// the property, which only limits what may be admitted)
+		verifAssert("a fee that covers a positive gas x price rounded up is admitted", !(need.IsPositive() && amt.GTE(need)))
+	}
+}
